@@ -113,7 +113,7 @@ func tsAlphabet() []lx.Op {
 }
 
 func metaAlphabet() []lx.Op {
-	back := -hour
+	back, fut := -hour, hour
 	return []lx.Op{
 		{Kind: "post", Name: "create-with-meta", Postings: []lx.P{p("world", "a", "USD", "10")}, Meta: map[string]string{"k": "v0"}},
 		{Kind: "post", Name: "create-backdated", Postings: []lx.P{p("world", "b", "USD", "10")}, TSOff: &back},
@@ -127,6 +127,11 @@ func metaAlphabet() []lx.Op {
 		{Kind: "accmeta", Name: "accmeta-new-q", Address: "q", Meta: map[string]string{"role": "q"}},
 		{Kind: "delaccmeta", Name: "delaccmeta-a-role", Address: "a", Key: "role"},
 		{Kind: "revert", Name: "revert1", TxID: 1, Force: true, Meta: map[string]string{"why": "test"}},
+		// (appended last: other alphabets slice this one by index)
+		// post-dated, with metadata: its first revision is dated at its (future) timestamp,
+		// the later revisions at the (earlier) date of each write — revision order and date
+		// order disagree (seeded change C17 ordered the PIT revision lookup by date)
+		{Kind: "post", Name: "create-future-with-meta", Postings: []lx.P{p("world", "a", "USD", "3")}, Meta: map[string]string{"k": "f0"}, TSOff: &fut},
 	}
 }
 
@@ -209,7 +214,7 @@ func init() {
 			lx.CheckPIT(ctx, s.Ctrl, s.Ref, rep)
 		},
 		need: []string{"post:ok", "revert:ok"},
-		rule: "every sequence of length<=depth over back-dated/now/future creates, scripts and reverts; after each sequence, at every recorded instant (each effective timestamp, insertion date, revert date, metadata date, each also -1us and +1us) and in both date modes: GetVolumesWithBalances(PIT), GetVolumesWithBalances(OOT,PIT) for every ordered pair of recorded dates, GetAggregatedBalances(PIT), ListAccounts(PIT, expand volumes/effectiveVolumes) and ListTransactions(PIT) == reference folds; accounts listed iff first usage <= t, transactions iff timestamp <= t, reverted flag iff revert date <= t",
+		rule: "every sequence of length<=depth over back-dated/now/future creates, scripts and reverts; after each sequence, at every recorded instant (each effective timestamp, insertion date, revert date, metadata date, each also -1us and +1us) and in both date modes: GetVolumesWithBalances(PIT), GetVolumesWithBalances(OOT,PIT) for every ordered pair of recorded dates, GetVolumesWithBalances(OOT alone) for every recorded date, GetAggregatedBalances(PIT), ListAccounts(PIT, expand volumes/effectiveVolumes) and ListTransactions(PIT) == reference folds; accounts listed iff first usage <= t, transactions iff timestamp <= t, reverted flag iff revert date <= t",
 	})
 	registerSeq(seqCheck{
 		id: "C15", quick: 100 * time.Second, thor: 15 * time.Minute, depthQ: 3, depthT: 4,
